@@ -88,6 +88,28 @@ CHECKS = {
              "(remove_from_inventory) is trusted to touch only this connection; schedules are not modelled. 'Repeated "
              "delivery has no effect' is the known-id path.",
         technique=PROOF_TECH + "; path contracts over ghost state (committed blocks, relayed sequence)"),
+    'C07': dict(
+        category='proof', design_ref='6/C07',
+        text="Proved from source for the eight consensus classes (OutputReference, Input, Output, Transaction, PowEvidence, "
+             "BlockSummary, BlockHeader, Block), the three signature kinds, the public key and the two tag dispatchers: "
+             "(SER) stream_serialize appends exactly enc(self), where enc is DEFINED by running that very method on an empty "
+             "stream; (RT2) whatever stream_deserialize returns, re-encoding it gives exactly the bytes it consumed - for "
+             "every byte string, cursor position and trailing data, so each value has a single accepted encoding (altered "
+             "tags, other version bytes and lengths that do not match cannot be accepted without failing this); the generic "
+             "list codec is verified where it is inlined, once per element class, with a loop invariant over the encoded "
+             "prefix; (ID) Transaction / Block.stream_deserialize cache sha256d of exactly the consumed bytes (of the "
+             "header's bytes for a block), so with RT2 the cached id is sha256d of the canonical encoding, and the four "
+             "hash() functions return sha256d(serialize()) / the cached id under that invariant. Bounded (not proof): the "
+             "VLQ arithmetic (ranges, all 7-bit boundaries, all strings up to 2 bytes and structured longer ones), "
+             "encode-then-decode equality for all consensus and wire-message classes on generated values, edited encodings, "
+             "and ids of objects read back from a fresh sqlite store.",
+        note="Assumed: the two VLQ functions are summarised by vlq(i) = the bytes the encoder writes (their arithmetic is "
+             "only checked by the bounded part); struct.pack/unpack and int.to_bytes/from_bytes are inverse on their ranges "
+             "(A-STRUCT); BytesIO is a byte sequence with a cursor (A-IO); sha256d is a function (A-HASH); serialize() "
+             "returns what stream_serialize writes to a fresh stream. Encode-then-decode (RT1) and the wire messages are "
+             "NOT proved, only exercised.",
+        technique=PROOF_TECH + "; encoder against a spec function defined by the code itself, decoder post-condition, loop "
+                  "invariants for the list codec; bounded companion for VLQ / RT1 / messages / store"),
     'C11': dict(
         category='proof', design_ref='6/C11',
         text="MessageReceiver.receive is verified from source, path by path (44 path obligations), against a framing "
